@@ -132,6 +132,8 @@ where
     let mut result = vec![];
     if p.is_odd() {
         let mut rng = thread_rng();
+        #[cfg(feature = "verif-hooks")]
+        let mut rng = crate::verif_hooks::shadow(rng);
         final_split_odd(poly, p, d, &mut result, &mut rng);
     } else {
         final_split_2(poly, d, &mut result);
